@@ -353,6 +353,11 @@ func Panics(f func()) (p bool) {
 	return false
 }
 
+// Named gives a value a fresh symbolic name (y with y == v assumed), so that
+// an equality that would otherwise be decided by term identity is handed to
+// the solver. Natively it is the identity.
+func Named(name string, v int) int { return v }
+
 // B2I is 1 for true and 0 for false.
 func B2I(b bool) int {
 	if b {
